@@ -41,6 +41,10 @@ func (e *Exec) call(fr *Frame, st *State, ins ssa.Instruction, cc *ssa.CallCommo
 		}
 	}
 	if callee == nil {
+		if isContextCancel(cc.Value, 0) {
+			e.assumed["cancel functions returned by context.With* change no modelled state"] = true
+			return Val{}
+		}
 		return e.unknownCall(fr, st, ins, "dynamic call", rtyp, args)
 	}
 	name := callee.String()
@@ -351,7 +355,29 @@ func (e *Exec) builtin(fr *Frame, st *State, ins ssa.Instruction, b *ssa.Builtin
 	case "ssa:deferstack":
 		return Val{T: c.Int(0)}
 	case "clear":
-		e.fail("clear builtin")
+		switch u := cc.Args[0].Type().Underlying().(type) {
+		case *types.Map:
+			dn, _, ln, ks, _ := e.mapArrs(u)
+			ds := arrSort("Int", arrSort(ks, "Bool"))
+			domA := e.heapGet(st, dn, ds)
+			lenA := e.heapGet(st, ln, arrSort("Int", "Int"))
+			e.frameCheck(st, dn, args[0].T)
+			e.heapSet(st, ln, c.Store(lenA, args[0].T, c.Int(0)))
+			e.heapSet(st, dn, c.Store(domA, args[0].T, c.App("(as const "+arrSort(ks, "Bool")+")", arrSort(ks, "Bool"), c.False())))
+			return Val{}
+		case *types.Slice:
+			if !isStructT(u.Elem()) && !isArrayT(u.Elem()) {
+				n, srt := e.memArr(u.Elem())
+				base := e.tm.SliceBase(args[0].T)
+				e.frameCheck(st, n, base)
+				mem := e.heapGet(st, n, srt)
+				_, es := arrayParts(mem.sort)
+				e.note("clear(slice): elements havocked instead of zeroed")
+				e.heapSet(st, n, c.Store(mem, base, c.Fresh(n+"@clear", es)))
+				return Val{}
+			}
+		}
+		e.fail("clear builtin on %s", cc.Args[0].Type())
 	case "close":
 		return Val{}
 	case "recover":
@@ -564,6 +590,13 @@ func (e *Exec) evalClauseAt(fr *Frame, cl Clause, st *State, results []Val) *Ter
 			}
 			args = append(args, results[p.Index])
 			oldArgs = append(oldArgs, results[p.Index])
+		case pkCallRes:
+			v, ok := fr.callRes[fmt.Sprintf("%s:%d", p.File, p.Off)]
+			if !ok {
+				e.fail("clause %s: %s - that call was not executed before the clause", cl.Label, p.Name)
+			}
+			args = append(args, v)
+			oldArgs = append(oldArgs, v)
 		case pkRangeIdx:
 			var v Val
 			found := false
@@ -1216,4 +1249,45 @@ func (e *Exec) appendStruct(fr *Frame, st *State, ins ssa.Instruction, cc *ssa.C
 	walk(et, nil, xv)
 	e.allocCheck(fr, st, ins, c.Ite(fits, c.Int(0), ncap))
 	return e.tm.MkSlice(newBase, newOff, c.Add(ln, c.Int(1)), newCap)
+}
+
+
+// isContextCancel: v is the cancel function returned by context.WithCancel/WithDeadline/WithTimeout (directly, or
+// through a local variable assigned only from such calls).
+func isContextCancel(v ssa.Value, depth int) bool {
+	if depth > 3 {
+		return false
+	}
+	switch x := v.(type) {
+	case *ssa.Extract:
+		if c, ok := x.Tuple.(*ssa.Call); ok && x.Index == 1 {
+			if f := c.Call.StaticCallee(); f != nil && strings.HasPrefix(f.String(), "context.With") {
+				return true
+			}
+		}
+	case *ssa.UnOp:
+		a, ok := x.X.(*ssa.Alloc)
+		if !ok || x.Op != token.MUL {
+			return false
+		}
+		refs := a.Referrers()
+		if refs == nil {
+			return false
+		}
+		stores := 0
+		for _, r := range *refs {
+			switch y := r.(type) {
+			case *ssa.Store:
+				if y.Addr != ssa.Value(a) || !isContextCancel(y.Val, depth+1) {
+					return false
+				}
+				stores++
+			case *ssa.UnOp, *ssa.DebugRef:
+			default:
+				return false
+			}
+		}
+		return stores > 0
+	}
+	return false
 }
